@@ -84,9 +84,16 @@ def typed_requests():
     return out
 
 
-def make(kind, k, byname, rng, reqs, hdr_ids=None):
+def make(kind, k, byname, rng, reqs, hdr_ids=None, last=None):
     from bromelia.base import DiameterRequest, DiameterAnswer, DiameterHeader
     from bromelia.messages import DWA, CEA
+    if kind in ("ansh", "reqh"):
+        if last is None:
+            kind = "ans" if kind == "ansh" else "hdr"
+        elif kind == "ansh":
+            return DiameterAnswer(header=last.header)
+        else:
+            return DiameterRequest(header=last.header)
     if kind == "req":
         if k % 3 == 0:
             return DiameterRequest(command_code=316, application_id=16777251)
@@ -106,13 +113,13 @@ def check_sequential(rep, byname):
     import bromelia.base as base
     from bromelia.base import DiameterRequest
     maxops = 3 if rep.tier == "quick" else 4
-    srclen = 5 if rep.tier == "quick" else 6
+    srclen = 4 if rep.tier == "quick" else 6
     defs = f"""
 Threads == {{1}}
 Vals == {{1, 2, 3}}
 UseLock == TRUE
 INSTANCE Ids WITH pc <- 0, reg <- 0, val <- 0, issued <- 0, owner <- 0, result <- 0
-Ops == UNION {{[1..n -> {{"req", "ans", "hdr"}}] : n \\in 1..{maxops}}}
+Ops == UNION {{[1..n -> {{"req", "ans", "hdr", "ansh", "reqh"}}] : n \\in 1..{maxops}}}
 Srcs == [1..{srclen} -> Vals]
 Vecs == SetToSeq({{[ops |-> o, src |-> s, exp |-> Run(o, s)] : o \\in {{x \\in Ops : \\E i \\in DOMAIN x : x[i] = "req"}}, s \\in Srcs}})
 """
@@ -131,13 +138,14 @@ Vecs == SetToSeq({{[ops |-> o, src |-> s, exp |-> Run(o, s)] : o \\in {{x \\in O
             src.script = [conc[x] for x in v["src"]]
             src.draws = 0
             replay = {"kind": "sequential", "ops": v["ops"], "src": v["src"]}
+            last = None
             for k, (op, e) in enumerate(zip(v["ops"], v["exp"])):
-                nh, ne = len(DiameterRequest.hop_by_hop_identifiers), len(DiameterRequest.end_to_end_identifiers)
+                nh, ne = list(DiameterRequest.hop_by_hop_identifiers), list(DiameterRequest.end_to_end_identifiers)
                 d0 = src.draws
                 ids = (0x0A000000 + n, 0x0B000000 + n)
                 try:
                     with guard(10, "create"):
-                        m = make(op, n + k, byname, rng, reqs, ids)
+                        m = make(op, n + k, byname, rng, reqs, ids, last)
                 except BaseException as ex:
                     rep.violation(f"creating a {op} raised {type(ex).__name__}: {ex}", replay)
                     break
@@ -153,10 +161,11 @@ Vecs == SetToSeq({{[ops |-> o, src |-> s, exp |-> Run(o, s)] : o \\in {{x \\in O
                     if src.draws != e["next"] - 1:
                         rep.violation(f"request {k + 1} of history {v['ops']} source {v['src']}: {src.draws} draws consumed so far, specification {e['next'] - 1}", replay)
                         break
+                    last = m
                 else:
-                    if src.draws != d0 or len(DiameterRequest.hop_by_hop_identifiers) != nh or len(DiameterRequest.end_to_end_identifiers) != ne:
-                        rep.violation(f"creating a{'n answer' if op == 'ans' else ' request from an explicit header'} consumed "
-                                      f"{src.draws - d0} draw(s) / altered the registries", replay)
+                    if src.draws != d0 or list(DiameterRequest.hop_by_hop_identifiers) != nh or list(DiameterRequest.end_to_end_identifiers) != ne:
+                        rep.violation(f"creating a{'n answer' if op in ('ans', 'ansh') else ' request from an explicit header'} ({op}) consumed "
+                                      f"{src.draws - d0} draw(s) / altered the identifier registries (history {v['ops']})", replay)
                         break
                     if op == "hdr" and (m.header.get_hop_by_hop(), m.header.get_end_to_end()) != ids:
                         rep.violation(f"request built from an explicit header carries {m.header.hop_by_hop.hex()}/{m.header.end_to_end.hex()}, header had {ids}", replay)
@@ -191,7 +200,7 @@ Accepted == PrintT(<<"PROGRESS", TLCGet(1), Len(Traces), Len(Traces[Len(Traces)]
 """
 
 
-def run_concurrent(seed, nthreads, script_vals, opcode, byname_unused=None):
+def run_concurrent(seed, nthreads, script_vals, opcode, kinds=("generic",)):
     """one execution of nthreads concurrent request creations; returns (events, results, outcome)"""
     from engine import vsched
     import bromelia.base as base
@@ -236,8 +245,18 @@ def run_concurrent(seed, nthreads, script_vals, opcode, byname_unused=None):
         s.opcode_budget = 4000
     results = {}
 
+    from bromelia.messages import CER, DWR, DPR
+
     def worker(i):
-        r = DiameterRequest(command_code=316, application_id=16777251)
+        kind = kinds[(i - 1) % len(kinds)]
+        if kind == "CER":
+            r = CER()
+        elif kind == "DWR":
+            r = DWR()
+        elif kind == "DPR":
+            r = DPR()
+        else:
+            r = DiameterRequest(command_code=316, application_id=16777251)
         results[i] = (r.header.hop_by_hop, r.header.end_to_end)
     for i in range(1, nthreads + 1):
         t = s.spawn(f"creator{i}", worker, i)
@@ -286,9 +305,11 @@ def check_concurrent(rep):
                      [bytes([3 + j, 0, 0, i % 251]) for j in range(8)]
             opcode = rep.tier == "thorough" and i % 4 == 0
             seed = rng.getrandbits(30)
-            events, results, out, dead = run_concurrent(seed, k, script, opcode)
+            # typed classes first (before any generic request exists in this process), then mixtures
+            kinds = [("CER", "DWR", "DPR"), ("DWR", "CER", "generic"), ("generic",), ("DPR", "generic", "CER")][0 if i < 40 else i % 4]
+            events, results, out, dead = run_concurrent(seed, k, script, opcode, kinds)
             rep.case(("conc", i))
-            replay = {"kind": "concurrent", "seed": seed, "threads": k, "script": [x.hex() for x in script], "opcode": opcode}
+            replay = {"kind": "concurrent", "seed": seed, "threads": k, "script": [x.hex() for x in script], "opcode": opcode, "kinds": list(kinds)}
             if out != "alldone" or dead or len(results) != k:
                 rep.violation(f"{k} concurrent request creations: scheduler outcome {out}, dead threads {dead}", replay)
                 continue
@@ -349,9 +370,9 @@ def run(rep):
     rep.rule = ("C15a: all creation histories of length <= 3/4 over {request, answer, request-from-header} x all outputs of a 3-valued random "
                 "source of length 5/6; C15b: TLC on the draw/test/append protocol (2 and 3 threads) + 300/6000 scheduled executions of the real "
                 "constructors with an adversarial source, each validated by TLC. distinct = histories + executions")
-    check_sequential(rep, byname)
+    check_concurrent(rep)          # first: nothing has been created in this process yet
     if not rep.violations:
-        check_concurrent(rep)
+        check_sequential(rep, byname)
     rep.assumptions += ["the random source is bromelia.base's os.urandom, substituted by a scripted source",
                         "the registries are observed by substituting list subclasses for DiameterRequest.hop_by_hop_identifiers / "
                         "end_to_end_identifiers (their membership test and append become yield points)",
@@ -367,7 +388,8 @@ def replay(rep, path):
     else:
         from engine import vsched
         vsched.install(0)
-        events, results, out, dead = run_concurrent(r["seed"], r["threads"], [bytes.fromhex(x) for x in r["script"]], r.get("opcode", False))
+        events, results, out, dead = run_concurrent(r["seed"], r["threads"], [bytes.fromhex(x) for x in r["script"]], r.get("opcode", False),
+                                                    tuple(r.get("kinds", ("generic",))))
         hs = [x[0] for x in results.values()]
         es = [x[1] for x in results.values()]
         if out != "alldone" or dead or len(set(hs)) != len(hs) or len(set(es)) != len(es):
